@@ -13,7 +13,7 @@ import pathlib as _pl
 
 import z3
 
-from pyvc.api import Bool, Int, Opt, SeqOf, Str, uf
+from pyvc.api import Bool, Int, Opt, SeqOf, Str, uf, implies
 from pyvc.ex_call import EXTERNALS
 from pyvc.ty import Unsupported, VBool, VList, VOpaque, VStr
 from contracts._common import PathT, path_name, path_str
@@ -174,3 +174,31 @@ def rel_ok(parts):
 def prefix_ok(parts):
     """A normalised directory prefix: relative, or absolute (first component is the anchor '/')."""
     return len(parts) > 0 and (parts[0] == "/" or comp_ok(parts[0])) and all(comp_ok(c) for c in parts[1:])
+
+
+# ---- str(p) and relative_to in terms of components (trusted pathlib facts, checked natively on replay)
+def _parts_str_native(ps):
+    return str(_pl.PurePosixPath(*ps))
+
+
+parts_str = uf("parts_str", [SeqOf(Str)], Str, concrete=_parts_str_native)
+path_rel_to = uf("path_relative_to", [PathT, PathT], PathT, concrete=lambda p, r: _pl.PurePosixPath(p).relative_to(r))
+
+
+def str_link(p):
+    """Trusted: str(p) is a function of p.parts."""
+    assert path_str(p) == parts_str(path_parts(p))
+    return True
+
+
+def rel_link(p, root):
+    """Trusted: when root's components are a prefix of p's, p.relative_to(root) has the remaining components."""
+    assert implies(len(path_parts(root)) <= len(path_parts(p)) and path_parts(p)[:len(path_parts(root))] == path_parts(root),
+                   path_parts(path_rel_to(p, root)) == path_parts(p)[len(path_parts(root)):])
+    return True
+
+
+def abs_link(p):
+    """Trusted (POSIX): a path is absolute iff its first component is the anchor '/'."""
+    assert path_is_abs(p) == (len(path_parts(p)) > 0 and path_parts(p)[0] == "/")
+    return True
